@@ -444,7 +444,7 @@ def run(tier, seed):
         assumptions=["single-threaded semantics (locks always succeed)", "every handle is retained (no deallocation)",
                      "the order invariant is proved per operation (create, named, get_or_create, copy, move, remove) for the version in force when the operation runs; "
                      "it is FALSE for the current min_version after a file of another version joins (C07_order_history_refuted = finding mixed-version-files); "
-                     "copy needs Closed w (part of C03's invariant); move: the combination `parent link names h but models differ` is excluded",
+                     "copy needs Closed w (part of C03's invariant); move: no side case left for the destination (C07_order_inv_move_all)",
                      "the reload clause: C07_reload_clean_world is about the bytes f_serialize writes (via C10_file_self_contained; Project.proj = Files.fproj) and has hypotheses on the "
                      "WORLD only: WorldOK (structure: order invariant + stored type = resolved type), WorldCanon/RootHeader (value level: comments and names that read back, canonical value "
                      "spellings, every required attribute present, non-blank text, layout of the kept content, header attributes of the version) and C10's NoHollow. "
@@ -464,7 +464,7 @@ def run(tier, seed):
                                  "C07_move_resolves_type_refuted": "F-witness (history built with the permissive name validator ok_check)",
                                  "C07_attach_loader_walk": "U", "C07_move_typed_loader_accepts": "U (hypotheses attach_ok, PairOK, TypedU of C17)",
                                  "C07_copy_typed_loader_accepts": "U (hypotheses attach_ok, PairOK, TypedU of C17; Closed of C13)",
-                                 "C07_proj_is_fproj": "U", "C07_reload_clean_file": "U (hypotheses NoHollow of C10, RootCanon of C01)",
+                                 "C07_order_inv_move_all": "U", "C07_proj_is_fproj": "U", "C07_reload_clean_file": "U (hypotheses NoHollow of C10, RootCanon of C01)",
                                  "C07_projection_canonical": "U", "C07_reload_clean_world": "U (hypotheses on the world only: WorldOK, WorldCanon, RootHeader, NoHollow)"}})
 
 
